@@ -129,7 +129,8 @@ fn run_c05(rep: &mut Report) {
     rep.assume("replica states satisfy the documented invariant live ∩ tomb = ∅ (precondition of the statement)");
     rep.assume("roaring 0.11 and fst 0.4 are pulled in by the lattices crate's default `std` feature and build offline from the vendored registry");
     rep.bound("items", c05::ITEMS);
-    rep.bound("bfs_depth", depth);
+    rep.bound("bfs_depth_set", depth);
+    rep.bound("bfs_depth_map", if thorough { depth } else { 1 });
     rep.bound("orders_sequence_length_set", k_set);
     rep.bound("orders_sequence_length_map", k_map);
     rep.bound("api_depth", api_depth);
@@ -137,6 +138,9 @@ fn run_c05(rep: &mut Report) {
     // (A)
     for v in c05::VARIANTS {
         let t0 = std::time::Instant::now();
+        // quick tier: the 125-replica map universes get BFS depth 1 (new(r0); merge(r1)); all
+        // two-merge sequences from default() are enumerated by (B)
+        let depth = if !thorough && v != c05::Variant::Set { 1 } else { depth };
         let (st, info) = c05::bfs(v, depth, threads());
         println!("  C05 bfs {:<44} evals={:<8} states={:<5} ({:.1}s) {}", v.name(), st.evaluations, st.states, t0.elapsed().as_secs_f64(), info);
         infos.push(info);
@@ -296,7 +300,7 @@ fn replay_c07(case: &Value) -> i32 {
     for_each_spec!(true, true, Some(name.as_str()), |s| {
         println!("replaying C07 {} side={side} a={a:?} delta={d:?} b={b:?}", s.name());
         code = match c07::check_case(&*s, &side, &a, &d, &b) {
-            Ok(abs) => { println!("observed: both sides denote {abs:?} and are == — property holds on this case"); 0 }
+            Ok(abs) => { println!("observed: both sides denote the tuple set {} and are == — property holds on this case", c07::show_abs(&abs)); 0 }
             Err(e) => { println!("observed: {e}"); 1 }
         };
     });
